@@ -36,14 +36,14 @@ func Do(
 		return
 	}
 
-	x := int32(-1)
+	x := int64(-1)
 	var wg sync.WaitGroup
 	wg.Add(parallelism)
 	for j := 0; j < parallelism; j++ {
 		go func() {
 			defer wg.Done()
 			for {
-				i := int(atomic.AddInt32(&x, 1))
+				i := int(atomic.AddInt64(&x, 1))
 				if i >= n {
 					return
 				}
@@ -86,12 +86,12 @@ func DoContext(
 		return nil
 	}
 
-	x := int32(-1)
+	x := int64(-1)
 	eg, ctx := errgroup.WithContext(ctx)
 	for j := 0; j < parallelism; j++ {
 		eg.Go(func() error {
 			for {
-				i := int(atomic.AddInt32(&x, 1))
+				i := int(atomic.AddInt64(&x, 1))
 				if i >= n {
 					return nil
 				}
